@@ -2,7 +2,7 @@
 From Coq Require Import List NArith ZArith Bool Arith.
 From PV Require Import Base.Bytes Base.Lit Base.Json Base.Utf8 Base.Reader Base.PelTypes
                        Model.Parse Model.Render Model.Pel Model.Env Spec.Encode Spec.DocOf Spec.Choice Gen.Tables
-                       Proofs.ParseFacts Proofs.SrcFacts Proofs.PelFacts Proofs.RenderFacts Proofs.NumberFacts.
+                       Proofs.ParseFacts Proofs.SrcFacts Proofs.PelFacts Proofs.RenderFacts Proofs.NumberFacts Proofs.NumberDistinct.
 Import ListNotations.
 Open Scope N_scope.
 
@@ -69,6 +69,25 @@ Theorem C01_document_order : forall hdrs (secs : list (text * list (text * json)
   build_output hdrs secs = hdrs ++ combine (numbered (map fst secs)) (map (fun s => JObj (snd s)) secs).
 Proof. exact build_output_distinct. Qed.
 Print Assumptions C01_document_order.
+
+(* the keys are in fact always pairwise distinct for optional sections (ids other than PH / UH): the published names contain
+   no digit, and a numbered key ends in one *)
+Theorem C01_keys_distinct : forall ids, (forall id, In id ids -> id < 65536 /\ id <> 20552 /\ id <> 21832) ->
+  NoDup (L "Private Header" :: L "User Header" :: numbered_names (map name_of_id (map (fun x => x) ids))).
+Proof. intros ids H. rewrite map_id. apply section_keys_nodup. exact H. Qed.
+Print Assumptions C01_keys_distinct.
+
+(* THE statement: for every well-formed PEL the decoded document has exactly one top-level entry per section, in log order,
+   named after the section's type through the published table (Unknown otherwise), a repeated name numbered 0,1,2.. *)
+Theorem C01_document : forall e c consider p trailing,
+  wf_pel p -> consider (p_uh p) = true ->
+  (forall creator, utf8_decode [ph_creator (p_ph p)] = Some creator ->
+     forall s, In s (p_secs p) -> render_section e c creator s <> None) ->
+  exists eid doc, decode e c consider (encode p ++ trailing) = OkDoc eid doc /\
+    map fst doc = L "Private Header" :: L "User Header" :: numbered_names (map name_of_id (map sec_id (p_secs p))) /\
+    NoDup (map fst doc).
+Proof. exact wf_document_keys. Qed.
+Print Assumptions C01_document.
 
 (* non-vacuity: a generated PEL with seven sections (two of them hexdump-only with the same id) is well-formed enough to
    decode, and its keys are numbered as stated *)
